@@ -39,6 +39,8 @@ def gen(t):
     a('w_extract', '%s& o, const %s& m' % (Q, M4), 'o = extractQuat(m);')
     a('w_setrot', '%s& o, const %s& f, const %s& tt' % (Q, V, V), 'o.setRotation(f, tt);')
     a('w_rotmat', '%s& o, const %s& f, const %s& tt' % (M4, V, V), 'o = rotationMatrix(f, tt);')
+    a('w_axang', '%s& o, const %s& q' % (Q, Q), '%s p; p.setAxisAngle(q.axis(), q.angle()); o = p;' % Q)
+    a('w_angle', '%s& o, const %s& q' % (E, Q), 'o = q.angle();')
     a('w_slerp', '%s& o, const %s& p, const %s& q, const %s& tt' % (Q, Q, Q, E), 'o = slerp(p, q, tt);')
     return tu
 
@@ -242,6 +244,45 @@ def main(rep, ws, tier):
                 if not ctx.requal(nn, (ONE, ONE)): return ('branch %s: result is not unit: |q\'|^2 = %s' % (PC.show_asg(asg)[:120], P.show_rat(nn, ctx)[:120]), None, fn_where(S.fn))
             return (None, 'on all %d branch cases the result is unit and parallel to q (q or -q)' % n_, fn_where(S.fn))
         ob('extractQuat(toMatrix44(q))', 'R10.extract', extract)
+
+        def axang():
+            """setAxisAngle(q.axis(), q.angle()) == q for unit q (cos/sin of half the atan2 angle expanded algebraically)"""
+            S = S_('w_axang')
+            o = outs(S, 'a0', 4)
+            for _ in range(10):
+                pre = {}
+                for c in set(c_ for x in o for c_ in P.all_conds(x)):
+                    if tiny(c): pre[c] = False
+                    if c.op == 'fcmp' and c.attr == 'oeq' and any(z.op == 'const' and T.const_value(z) == 0 for z in c.args): pre[c] = False     # lengths are non-zero on the generic cell
+                if not pre: break
+                o = [T.resolve(x, pre) for x in o]
+            ctx = P.Ctx(); ctx.cancel = True; unit(ctx, 'a1')
+            orig = ctx.call
+            def unwrap(a):
+                k = Fraction(1)
+                for _ in range(6):
+                    if a.op == 'fmul' and any(z.op == 'const' for z in a.args):
+                        c_ = [z for z in a.args if z.op == 'const'][0]; k *= T.const_value(c_); a = [z for z in a.args if z is not c_][0]
+                    elif a.op == 'fdiv' and a.args[1].op == 'const': k /= T.const_value(a.args[1]); a = a.args[0]
+                    else: break
+                return a, k
+            def call(n):
+                if n.attr in ('cos', 'sin') and len(n.args) == 1:
+                    a, k = unwrap(n.args[0])
+                    if k == 1 and a.op == 'call' and a.attr == 'atan2':
+                        y, x = ctx.rat(a.args[0]), ctx.rat(a.args[1])
+                        h2 = ctx.radd(ctx.rmul(x, x), ctx.rmul(y, y))
+                        h = ctx.rdiv(ctx.sqrt_poly(h2[0]), ctx.sqrt_poly(h2[1]))
+                        return ctx.rdiv(x if n.attr == 'cos' else y, h)
+                return orig(n)
+            ctx.call = call
+            q = [atom(ctx, agg.slot_in('a1', i, t)) for i in range(4)]
+            for i in range(4):
+                r = ctx.rat(o[i])
+                if not ctx.requal(r, q[i]):
+                    return ('component %d of setAxisAngle(q.axis(), q.angle()) is %s, not that of q (unit q)' % (i, P.show_rat(r, ctx)[:200]), None, fn_where(S.fn))
+            return (None, 'setAxisAngle(axis(), angle()) reproduces every unit q (cos, sin of atan2(|v|, r) expanded; |q| = 1)', fn_where(S.fn))
+        ob('axis/angle round trip', 'R10.aa', axang)
 
         def pivot():
             """negative-trace branch: the component computed as sqrt(...)/2 (the pivot, later the divisor 0.5/s of the
